@@ -1442,6 +1442,7 @@ def replay(ctx: Ctx, payload):
             d["case"].pop("line")
     if isinstance(payload.get("case"), dict):
         cases.append(payload["case"])
+    cases += [c for c in payload.get("cases", []) if isinstance(c, dict)]
     # a "tie-no-longer-checks" replay carries the disagreeing request lines
     cases += [d["case"] for d in payload.get("disagreements", []) if isinstance(d.get("case"), dict)]
     if not cases:
